@@ -1127,6 +1127,7 @@ class Interp:
                 elif isinstance(op, ast.IsNot):
                     ok = not ((left is right) or (left is None and right is None) or same_cls_)
                 elif isinstance(op, (ast.In, ast.NotIn)):
+                    keyed_ = isinstance(right, (dict, set))  # hashed containers of symbolic values: structural identity, as their lookups are
                     if isinstance(right, dict):
                         right = list(right.keys())
                     if isinstance(right, set):
@@ -1142,7 +1143,18 @@ class Interp:
                             pass
                     if not isinstance(right, (list, tuple)):
                         raise Undecided("membership")
-                    ok = (left in right) == isinstance(op, ast.In)
+                    found_ = left in right
+                    if not found_ and not keyed_ and isinstance(left, Poly) and self.region is not None and any(isinstance(x_, Poly) for x_ in right):
+                        # numbers: `v in (lo, hi)` compares VALUES (decided at the region's representative point where it decides)
+                        for x_ in right:
+                            if isinstance(x_, Poly):
+                                try:
+                                    if self.compare(ast.Eq(), left, x_):
+                                        found_ = True
+                                        break
+                                except Undecided:
+                                    pass
+                    ok = found_ == isinstance(op, ast.In)
                 elif self.externals.get("__elementwise__") and (isinstance(left, list) or isinstance(right, list)) and len(e.ops) == 1 and not (type(left) is list and type(right) is list and isinstance(op, (ast.Eq, ast.NotEq))):
                     # (two PLAIN python lists compared with == / != are compared as python compares lists; tensors -- results of array
                     # operations -- compare elementwise)
